@@ -26,7 +26,8 @@ H['uuid-like'].required_goals = ('accepted', 'rejected')
 H['generate-uuid'] = R.Harness('generate-uuid', strs.scen_generate_uuid,
                                strs.load_sym_uuid, strs.load_real_uuid)
 H['generate-uuid'].required_goals = ('done',)
-BOOLDOM = sorted(set(b'tTrRuUeEfFaAlLsSoOnNyY01 \t\nxX\xa0_'))
+BOOLDOM = sorted(set(b'tTrRuUeEfFaAlLsSoOnNyY01 \t\nxX\xa0_') |
+                 {0x17F, 0x212A, 0x2003})   # long s, Kelvin sign, em space
 
 
 def build_jobs(tier, seed):
